@@ -577,8 +577,10 @@ class C05(Cfg):
             if k != "sqlck" or out == m: continue
             fi = dict(x.split("=", 1) for x in out.split(" ") if "=" in x)
             fm = dict(x.split("=", 1) for x in m.split(" ") if "=" in x)
+            if "sql" not in fi and "sql" not in fm:
+                continue        # neither side has a statement (malformed case): left to the line-by-line comparison of the engine
             if "sql" not in fi or "sql" not in fm:
-                res.append(("sql-text-mismatch", "impl %s model %s" % (out[:120], m[:120])))
+                res.append(("sql-text-mismatch", "only one side produced a statement: code %s model %s" % (out[:120], m[:120])))
                 continue
             if fi.get("sql") != fm.get("sql"):
                 a, b = urllib.parse.unquote(fi["sql"]), urllib.parse.unquote(fm["sql"])
